@@ -364,6 +364,7 @@ class Program(object):
                     if rf["key"] in self.functions:
                         continue
                 fn = Function(rf, types, p)
+                fn.prog = self
                 self.functions[fn.key] = fn
                 self.by_name.setdefault(fn.name, []).append(fn)
             for r in d["records"]:
